@@ -432,6 +432,7 @@ Proof.
   - apply exhaust_good; exact HI.
   - apply readline_good; exact HI.
   - apply readlines_good; exact HI.
+  - apply readlines_good; exact HI.
 Qed.
 
 (* ------------------------------------------------------------------ operation sequences *)
@@ -842,4 +843,61 @@ Proof.
       * unfold len_of, truthy. cbn [lenN length N.of_nat Z.of_N Z.eqb negb app]. rewrite dropN_0, disc_false.
         unfold embed. destruct (is_max s); reflexivity.
       * rewrite tail_eq. unfold embed, advance, len_of. cbn [pos]. f_equal. lia.
+Qed.
+
+
+(* ------------------------------------------------------------------ tell, and a buffering wrapper as a consumer *)
+Lemma tell_pos s : tell s = pos s.
+Proof. unfold tell, tell_gen. lia. Qed.
+
+Lemma wrun_good D : forall ops s u buf pre, Inv D s u -> u_taken u = pre ++ buf ->
+  match wrun s u buf ops with
+  | (outs, buf', e, s', u') =>
+    Inv D s' u' /\ limit s' = limit s /\
+    exists lost, u_taken u' = pre ++ concat outs ++ buf' ++ lost /\
+      match e with Some e => allowed e | None => lost = [] end
+  end.
+Proof.
+  induction ops as [|o ops IH]; intros s u buf pre HI Ht; cbn [wrun].
+  - spl; auto. exists []. cbn [concat app]. rewrite app_nil_r. auto.
+  - destruct o as [kind size| |n].
+    + pose proof (readinto_good D s u kind (zerosN size) HI) as G.
+      pose proof (readinto_eq s u kind (zerosN size)) as Hshape.
+      destruct (readinto s u kind (zerosN size)) as [[o s1] u1]. unfold good in G.
+      destruct G as [HI1 [[Hlim _] [x [Hx [_ Ho]]]]].
+      destruct o as [d|k b|l|e].
+      * exfalso. unfold readinto_spec in Hshape. destruct (core_spec s u (lenN (zerosN size))) as [[[? ?| |?] ?] ?]; discriminate.
+      * cbn [delivered] in Ho. specialize (IH s1 u1 (buf ++ takeN k b) pre HI1).
+        rewrite Hx, Ht, Ho, <- app_assoc in IH. specialize (IH eq_refl).
+        rewrite Ho. destruct (wrun s1 u1 (buf ++ x) ops) as [[[[outs b'] e] s2] u2].
+        destruct IH as [HI2 [Hl2 IH]]. split; [exact HI2|]. split; [congruence|exact IH].
+      * exfalso. unfold readinto_spec in Hshape. destruct (core_spec s u (lenN (zerosN size))) as [[[? ?| |?] ?] ?]; discriminate.
+      * spl; auto. exists x. cbn [concat app]. rewrite Hx, Ht, <- app_assoc. auto.
+    + pose proof (readall_good_full D s u HI) as G. destruct (readall s u) as [[o s1] u1].
+      destruct G as [HI1 [[Hlim _] [_ [x [Hx [_ Ho]]]]]].
+      destruct o as [d|k b|l|e]; try contradiction.
+      * destruct Ho as [Hd _]. subst d. specialize (IH s1 u1 (buf ++ x) pre HI1).
+        rewrite Hx, Ht, <- app_assoc in IH. specialize (IH eq_refl).
+        destruct (wrun s1 u1 (buf ++ x) ops) as [[[[outs b'] e] s2] u2].
+        destruct IH as [HI2 [Hl2 IH]]. split; [exact HI2|]. split; [congruence|exact IH].
+      * spl; auto. exists x. cbn [concat app]. rewrite Hx, Ht, <- app_assoc. split; [reflexivity|].
+        unfold allowed. destruct Ho as [[Ho _]|[Ho _]]; auto.
+    + specialize (IH s u (dropN n buf) (pre ++ takeN n buf) HI).
+      rewrite <- app_assoc, takeN_dropN in IH. specialize (IH Ht).
+      destruct (wrun s u (dropN n buf) ops) as [[[[outs b'] e] s2] u2].
+      destruct IH as [HI2 [Hl2 [lost [Hl He]]]]. spl; auto. exists lost. split; [|exact He].
+      cbn [concat]. rewrite Hl, <- !app_assoc. reflexivity.
+Qed.
+
+Lemma buffering_wrapper D lim m sched ri ops :
+  match wrun (ls_init lim m) (und_init D sched ri) [] ops with
+  | (outs, buf, e, s, u) =>
+    u_taken u ++ u_data u = D /\ pos s = lenN (u_taken u) /\ lenN (u_taken u) <= lim /\
+    exists lost, u_taken u = concat outs ++ buf ++ lost /\
+      match e with Some e => allowed e | None => lost = [] end
+  end.
+Proof.
+  pose proof (wrun_good D ops (ls_init lim m) (und_init D sched ri) [] [] (init_Inv D lim m sched ri) eq_refl) as H.
+  destruct (wrun (ls_init lim m) (und_init D sched ri) [] ops) as [[[[outs buf] e] s] u].
+  destruct H as [[HD [Hp Hl]] [Hlim H]]. cbn [ls_init limit app] in *. spl; auto. lia.
 Qed.
